@@ -185,7 +185,11 @@ def real_results(col, seed):
         col.violation("collocate-result-breaks-compact-invariant", dict(rep, observed=res["Collocations/pairs"].values.tolist()))
         return
     pairs = res["Collocations/pairs"].values
-    e = expand(res)
+    try:
+        e = expand(res)
+    except Exception as ex:
+        col.violation("expand-raises-" + type(ex).__name__ + "-real-result", dict(rep, observed=repr(ex)[:300]))
+        return
     if e["primary/id"].values.tolist() != res["primary/id"].values[pairs[0]].tolist() or \
             e["secondary/id"].values.tolist() != res["secondary/id"].values[pairs[1]].tolist():
         col.violation("expand-wrong-rows-real-result", dict(rep, observed="expanded ids differ from ids of the pairs"))
